@@ -323,6 +323,7 @@ func runC10(c *eng.Ctx) {
 		RunValueDisposables(c, "C10", cr.next)
 		RunFuncDisposables(c, "C10", cr.next)
 		RunPartialOutputs(c, "C10", cr.next)
+		RunDynamicTypeDisposables(c, cr.next)
 		if C10Overlap != nil {
 			C10Overlap(c, cr.next)
 		}
